@@ -183,6 +183,10 @@ func c08Subscription(c *run.Ctx) {
 			c.Violation("c08-schema-rejected", map[string]interface{}{"error": err.Error()})
 			return
 		}
+		if err := root.RegisterType(&zoo.PetHound{}, "Hound"); err != nil {
+			c.Violation("c08-schema-rejected", map[string]interface{}{"error": err.Error()})
+			return
+		}
 		fname := []string{"watch", "watchAny", "watch", "watchAny", "watchDog"}[r.Intn(5)]
 		st := ms.Type("Subscription").Field(fname).Type.Name
 		// a selection for a value of static type st, generated over the model with the subscription field as only root selection
